@@ -59,7 +59,7 @@ protected:
 	Session& _session;
 	ProcessModel _pmodel;
 	f8_thread_cancellation_token _cancellation_token;
-	volatile bool _started;
+	f8_atomic<bool> _started; // read outside _start_mutex (double checked) while the worker thread clears it
 	f8_mutex _start_mutex;
 
 private:
